@@ -231,4 +231,20 @@ theorem hasLast_of_mem {acts : List Act} {code : Nat} {obs : Option Nat} {body :
   simp only [hasLast, List.any_eq_true]
   exact ⟨_, h, rfl⟩
 
+
+theorem exec_render_inv (sv : Nat) (acts : List Act) : ∀ c0 : State, ∀ sv' ver,
+    Out.render sv' ver ∈ (exec c0 sv acts).2 → Act.render ver ∈ acts := by
+  induction acts with
+  | nil => intro c0 sv' ver h; cases h
+  | cons a as ih =>
+    intro c0 sv' ver hv
+    simp only [exec] at hv
+    rcases List.mem_append.mp hv with hv | hv
+    · cases a with
+      | render v => simp [execAct] at hv; rw [hv.2]; exact List.mem_cons_self
+      | emit code obs body il => simp [execAct] at hv
+      | accept => simp [execAct] at hv
+      | callback => simp [execAct] at hv
+    · exact List.mem_cons_of_mem _ (ih _ _ _ hv)
+
 end Aiocoap.Observe.Server
